@@ -378,8 +378,10 @@ func (env *Env) c08Masks() {
 			nChk++
 			has := func(m pat.M) bool { return hasGateAny(a, m) != nil }
 			c1 := has(pat.Bin("==", pat.Len(v), pat.Const("8")))
-			c2 := has(pat.Bin("==", pat.Bin("&", val, f1), f1))
-			c3 := has(pat.Bin("==", pat.Bin("&", val, pat.Op(flow.OpUn, "^", f0)), pat.Const("0")))
+			// value & fixed1 == fixed1, or the same as "no fixed-1 bit is missing": fixed1 &^ value == 0
+			c2 := has(pat.OneOf(pat.Bin("==", pat.Bin("&", val, f1), f1), pat.Bin("==", pat.Bin("&^", f1, val), pat.Const("0")), pat.Bin("==", pat.Bin("&", f1, pat.Op(flow.OpUn, "^", val)), pat.Const("0"))))
+			// value & ^fixed0 == 0, also spelled value &^ fixed0 == 0
+			c3 := has(pat.OneOf(pat.Bin("==", pat.Bin("&", val, pat.Op(flow.OpUn, "^", f0)), pat.Const("0")), pat.Bin("==", pat.Bin("&^", val, f0), pat.Const("0"))))
 			if !(c1 && c2 && c3) {
 				ok = false
 				r.Fail("C08/MASK", name, env.P.Pos(a.Ret.Pos()), fmt.Sprintf("%s must require size 8 (%v), value & fixed1 == fixed1 (%v) and value & ^fixed0 == 0 (%v) on the little-endian 64-bit value", name, c1, c2, c3))
